@@ -297,10 +297,25 @@ def vrefresh : List String → Option String
     | _ => none
   | _ => none
 
+def parseOp (s : String) : Option SessionOp :=
+  if s == "R" then some SessionOp.refresh
+  else if s.startsWith "F" then
+    match ((s.drop 1).toString).splitOn "/" with
+    | [a, b] => do some (SessionOp.found (← parseNatList a) (← parseNatList b))
+    | _ => none
+  else none
+
+/-- `vreport <op>…` with op = `R` (archive at refresh) or `F<top ids|->/<tree ids|->` →
+`<has_errors 0|1> <ids of the final report, comma separated|->` -/
+def vreport (args : List String) : Option String := do
+  let ops ← args.mapM parseOp
+  let r := runSession ops
+  some (showBool r.hasErrors ++ " " ++ showList (r.final.map toString))
+
 /-- channels exported to `Main.lean` (collected by harness/gen_main.py) -/
 def channels : List (String × (List String → Option String)) :=
   [("vseg", vseg), ("vrep", vrep), ("vtl", vtl), ("vgentl", vgentl), ("vtldepth", vtldepth), ("vwin", vwin),
    ("vtol", vtol),
-   ("vinit", vinit), ("vmpd", vmpd), ("vrefresh", vrefresh)]
+   ("vinit", vinit), ("vmpd", vmpd), ("vrefresh", vrefresh), ("vreport", vreport)]
 
 end DashLive.Driver.Validator
